@@ -163,7 +163,8 @@ def run(ctx):
         t = rec['t']
         text = t['sign'] + t['mag'] + t['prefix'] + t['unit']
         m += 1
-        acc2 += compare(ctx, text, t['sys'], rec['ref'], strutils, 'tokens')
+        sysarg = {'none_object': None, 'zero_object': 0}.get(t['sys'], t['sys'])
+        acc2 += compare(ctx, text, sysarg, rec['ref'], strutils, 'tokens')
     ctx.stage('token-level', cases=m, accepted_by_code=acc2)
     ctx.cov['evaluations'] += m
     ctx.cov['distinct_nontrivial'] += acc2 + accepted
